@@ -26,6 +26,10 @@ func checkC05(c *Ctx) {
 	c.checkDerivationThroughRegistry("O1 through-registry")
 	c.checkSubscopeSource("O1 scope-by-canonical-key")
 	c.checkRootIdentityBeforeRegistration("O1 root-identity-first")
+	// "same identity returns the very same live scope": a scope leaves a shard's table only through a checked
+	// deletion - the table itself is never replaced (a stale copy installed after a pass forgets the scopes
+	// registered meanwhile; the next equal derivation creates a second scope) - shared with C07 O2
+	c.checkSetOnlyAtConstruction("O1 shard-map-fixed", "", "scopeBucket", "s")
 	// "derivations whose prefix differs never share a scope or a metric": the qualified name is the
 	// prefix, the separator and the name, verbatim (shared with C04 O1)
 	c.shared(checkC04, map[string]string{"O1 concat-shape": "O3 qualified-name"})
@@ -422,6 +426,89 @@ func checkC05(c *Ctx) {
 			c.bad("O3 separator-emission", key, w.Pos(), "no pair separator is written between two key=value pairs")
 		} else if sepOK {
 			c.ok("O3 separator-emission", key, sepAt.Pos(), "the pair separator is written for every pair but the first, decided by position")
+		}
+	}
+
+	// the "previous key" a duplicate test compares with starts out as the empty string: the test must be
+	// skipped for the first key by position, or the empty tag key - a valid key - equals the marker and is
+	// dropped from the key (the writer and the functions it calls are judged)
+	{
+		fns := []*ssa.Function{w}
+		seenF := map[*ssa.Function]bool{w: true}
+		for i := 0; i < len(fns) && i < 8; i++ {
+			instrsOf(fns[i], func(in ssa.Instruction) {
+				if ci, ok := in.(ssa.CallInstruction); ok {
+					if g := staticCallee(ci); g != nil && g.Package() == w.Package() && g.Blocks != nil && !seenF[g] {
+						seenF[g] = true
+						fns = append(fns, g)
+					}
+				}
+			})
+		}
+		isStr := func(v ssa.Value) bool {
+			bt, okb := v.Type().Underlying().(*types.Basic)
+			return okb && bt.Info()&types.IsString != 0
+		}
+		emptyMarker := func(v ssa.Value) bool {
+			ph, ok := stripConv(v).(*ssa.Phi)
+			if !ok {
+				return false
+			}
+			for _, e := range ph.Edges {
+				if sv, isS := constString(e); isS && sv == "" {
+					return true
+				}
+			}
+			return false
+		}
+		nCmp, okAll := 0, true
+		for _, f := range fns {
+			for _, b := range f.Blocks {
+				iff, isIf := condOf(b)
+				if !isIf {
+					continue
+				}
+				op, x, y, isCmp := cmpOf(iff.Cond)
+				if !isCmp || (op != token.EQL && op != token.NEQ) || !isStr(x) || !isStr(y) {
+					continue
+				}
+				if !emptyMarker(x) && !emptyMarker(y) {
+					continue
+				}
+				nCmp++
+				// guarded by position: an integer test against a constant on a dominating edge
+				guarded := false
+				for _, gb := range f.Blocks {
+					gi, isG := condOf(gb)
+					if !isG || gb == b {
+						continue
+					}
+					_, gx, gy, gCmp := cmpOf(gi.Cond)
+					if !gCmp {
+						continue
+					}
+					bt, isB := gx.Type().Underlying().(*types.Basic)
+					if !isB || bt.Info()&types.IsInteger == 0 {
+						continue
+					}
+					if _, isK := constInt(gy); !isK {
+						continue
+					}
+					if ln, isLn := stripConv(gx).(*ssa.Call); isLn && isBuiltin(ln, "len") {
+						continue // a length is content, not position
+					}
+					if edgeDominates(gb, 0, b) || edgeDominates(gb, 1, b) {
+						guarded = true
+					}
+				}
+				if !guarded {
+					okAll = false
+					c.bad("O3 separator-emission", c.fnKey(f)+":first-key", iff.Pos(), "a key is compared with a 'previous key' that starts out as the empty string, and nothing skips the test for the first key by position: the empty tag key - a valid key - equals the marker and is dropped, so Tagged({\"\":x}) is its parent and tag sets that differ only in the empty key share one scope", c.describe(iff))
+				}
+			}
+		}
+		if okAll {
+			c.ok("O3 separator-emission", key+":first-key", w.Pos(), fmt.Sprintf("%d duplicate test(s) against a previous key, each skipped for the first key by position", nCmp))
 		}
 	}
 
